@@ -408,7 +408,7 @@ def judgeGrowth (sc : Json) (raws : List Raw) (order : List Nat) : Verdict :=
     | some c =>
       let (ok, zeroEff, phase) := o.judge true c
       let (okE, _, _) := o.judge false c
-      let frac := rd.2 > 0 && rd.1 % (10 ^ rd.2) != 0
+      let frac := jhas args "min_growth_ratio" && rd.2 > 0 && rd.1 % (10 ^ rd.2) != 0
       { viol := if ok then [] else ["growth.head_is_documented_choice"]
         cls := if ok then "" else if zeroEff then "growth-size-eligible-zero-effective-usage"
                else if frac then "growth-fractional-min-growth-ratio" else "growth-head-is-documented-choice"
